@@ -1,10 +1,24 @@
 //! puresim: enumeration / random differential testing of pure components against reference models.
+#[macro_use]
+extern crate tracing;
+#[macro_use]
+extern crate kanidmd_lib;
+
 mod c10;
+mod c11;
+mod c12;
+mod c14;
+mod c42;
+mod replcap;
 
 fn main() {
     let args = kvcore::parse_args();
     match args.prop.as_str() {
         "C10" => c10::run(args),
+        "C11" => c11::run(args),
+        "C12" => c12::run(args),
+        "C14" => c14::run(args),
+        "C42" => c42::run(args),
         p => {
             println!("INCONCLUSIVE property={p} reason=puresim does not serve this property");
             std::process::exit(2);
